@@ -15,7 +15,8 @@ use zarrs::storage::{
 };
 
 use super::common::{
-    Chunk, SampleBuffer, SampleBufferValue, create_arrays, value_to_zarr_coord_params,
+    Chunk, SampleBuffer, SampleBufferValue, create_arrays, event_counts,
+    value_to_zarr_coord_params,
 };
 use crate::storage::{ChainStorage, StorageConfig, TraceStorage};
 use crate::{Math, Progress, Settings};
@@ -411,17 +412,7 @@ impl ChainStorage for ZarrAsyncChainStorage {
     ) -> Result<()> {
         let is_first_draw = self.last_sample_was_warmup && !info.tuning;
         if is_first_draw {
-            {
-                let mut seen = std::collections::HashSet::new();
-                for (field, dim) in &self.event_dim_of_stat {
-                    if seen.insert(dim.as_str()) {
-                        if let Some(buf) = self.stats_buffers.get(field.as_str()) {
-                            self.warmup_event_counts
-                                .insert(dim.clone(), buf.total_pushed());
-                        }
-                    }
-                }
-            }
+            self.warmup_event_counts = event_counts(&self.event_dim_of_stat, &self.stats_buffers);
             for (key, buffer) in self.draw_buffers.iter_mut() {
                 if let Some(chunk) = buffer.reset() {
                     let array = self.arrays.warmup_draw_arrays[key].clone();
@@ -473,15 +464,7 @@ impl ChainStorage for ZarrAsyncChainStorage {
     /// Flush remaining samples and finalize storage, joining all pending writes
     fn finalize(self) -> Result<Self::Finalized> {
         // Collect sample counts before consuming stats_buffers
-        let mut seen = std::collections::HashSet::new();
-        let mut sample_counts: HashMap<String, u64> = HashMap::new();
-        for (field, dim) in &self.event_dim_of_stat {
-            if seen.insert(dim.as_str()) {
-                if let Some(buf) = self.stats_buffers.get(field.as_str()) {
-                    sample_counts.insert(dim.clone(), buf.total_pushed());
-                }
-            }
-        }
+        let sample_counts = event_counts(&self.event_dim_of_stat, &self.stats_buffers);
 
         // Handle remaining buffers synchronously
         for (key, mut buffer) in self.draw_buffers.into_iter() {
@@ -537,23 +520,17 @@ impl ChainStorage for ZarrAsyncChainStorage {
     }
 
     fn inspect(&self) -> Result<Option<Self::Finalized>> {
-        let mut seen = std::collections::HashSet::new();
-        let mut counts = HashMap::new();
-        for (field, dim) in &self.event_dim_of_stat {
-            if seen.insert(dim.as_str()) {
-                let s = self
-                    .stats_buffers
-                    .get(field.as_str())
-                    .map(|b| b.total_pushed())
-                    .unwrap_or(0);
+        let counts = event_counts(&self.event_dim_of_stat, &self.stats_buffers)
+            .into_iter()
+            .map(|(dim, s)| {
                 let w = self
                     .warmup_event_counts
                     .get(dim.as_str())
                     .copied()
                     .unwrap_or(0);
-                counts.insert(dim.clone(), (w, s));
-            }
-        }
+                (dim, (w, s))
+            })
+            .collect();
         Ok(Some(counts))
     }
 
